@@ -22,7 +22,7 @@ func checkC15(c *Ctx) {
 		"(C15.const) every imported name - import-all and selective - is bound through DeclareExternalElement with the exporting module (read-only, and calls run in the home module), and DeclareExternalValue declares a constant; " +
 		"(C15.missing) a missing library / module source is an error return; (C15.edge) every path through the custom-module branch that reaches the cycle check has recorded the edge importer->imported (module allocation or AddDependency), " +
 		"and the graph primitives record an edge on every path (no path from entry to return without the append); a detected cycle returns ModuleCircularDependency; (C15.exports) only method and type declarations (and library registration) add export values; " +
-		"(C15.path) the file finder builds root dir + path parts + \".zn\". (C15.home) every NewFunctionCallFrame in the evaluator names the callee's own module, never vm.GetCurrentModule() evaluated at call time; the cycle test has no path answering no-cycle before searching the graph. externalRefs is written under localCount-1 after the declaration; VM.CheckDepedency gives no answer for a known module before the cycle search. NOT decided: that an imported method sees its home module's other symbols (run-time scope history; known to fail for same-module siblings, see DESIGN.md), the DFS itself (baseline tests), exhaustive graphs."
+		"(C15.path) the file finder builds root dir + path parts + \".zn\". (C15.home) every NewFunctionCallFrame in the evaluator names the callee's own module, never vm.GetCurrentModule() evaluated at call time; the cycle test has no path answering no-cycle before searching the graph. externalRefs is written under localCount-1 after the declaration; VM.CheckDepedency gives no answer for a known module before the cycle search. NOT decided: that an imported method sees its home module's other symbols (run-time scope history; known to fail for same-module siblings, see DESIGN.md), the DFS itself (baseline tests), exhaustive graphs. (C15.notfound) the file finder answers 'module not found' only behind os.IsNotExist; (C15.scopekeep) no module scope is ever deleted from VM.valueStack."
 	R.Assumptions = []string{"checkCircularDepedencyDFS is a correct cycle test (7 baseline cases)", "path/filepath.Join semantics"}
 	u := c.Core()
 	u.buildSSA()
@@ -416,6 +416,56 @@ func checkC15(c *Ctx) {
 	}
 	R.min("C15.exports", 3)
 
+	// ---- C15.notfound: the file finder answers "module not found" only when the file system says that the resolved
+	// path does not exist (any other test on the path text rejects modules that do exist)
+	if g := u.ssaFunc("pkg/exec", "Interpreter.LoadFile"); g != nil {
+		nNF := 0
+		for _, h := range family(g, 1) {
+			if h.Pkg != g.Pkg {
+				continue
+			}
+			for _, cs := range u.callsNamed(h, "pkg/error.ModuleNotFound") {
+				nNF++
+				guarded := false
+				for _, b := range h.Blocks {
+					ifi, isIf := b.Instrs[len(b.Instrs)-1].(*ssa.If)
+					if !isIf {
+						continue
+					}
+					if cv, isC := ifi.Cond.(*ssa.Call); isC && u.callName(cv) == "os.IsNotExist" && edgeDominates(b, b.Succs[0], cs.Block()) {
+						guarded = true
+					}
+				}
+				R.check(guarded, "C15.notfound", u.fname(h)+":"+siteName(u, h, cs), u.pos(cs.Pos()), "'module not found' is answered only when os.Stat reports that the path does not exist", "the file finder answers 'module not found' without the file system having said so (a test on the path text): a module that exists under the main file's directory is rejected for some ways of naming the main file")
+			}
+		}
+		if nNF == 0 {
+			R.viol("C15.notfound", "pkg/exec.Interpreter.LoadFile:instances", u.pos(g.Pos()), "no ModuleNotFound answer found in the file finder")
+		}
+	}
+
+	// ---- C15.scopekeep: a module's own scope (with the names it imported) lives as long as the VM: imported methods and
+	// types run in it long after the module body has finished, so no entry of VM.valueStack is ever deleted
+	nDel := 0
+	for _, g := range u.srcFuncs("pkg/runtime") {
+		for _, in := range instrsOf(g) {
+			call, isCall := in.(*ssa.Call)
+			if !isCall {
+				continue
+			}
+			if bi, isB := call.Call.Value.(*ssa.Builtin); !isB || bi.Name() != "delete" || len(call.Call.Args) == 0 {
+				continue
+			}
+			if containerFieldOf(call.Call.Args[0]) == "VM.valueStack" {
+				nDel++
+				R.viol("C15.scopekeep", u.fname(g)+":delete(valueStack)", u.pos(call.Pos()), "a module's scope is deleted from the VM: the names that module imported vanish with it, so a method or type it exported fails later with 'name not defined' when it uses them")
+			}
+		}
+	}
+	if nDel == 0 {
+		R.hold("C15.scopekeep", "pkg/runtime:VM.valueStack", "", "no module scope is ever removed from the VM")
+	}
+
 	// ---- C15.path
 	if g := u.ssaFunc("pkg/exec", "Interpreter.LoadFile"); g != nil {
 		okP := false
@@ -656,6 +706,63 @@ func checkC17(c *Ctx) {
 		R.check(okR && nSt == 1, "C17.api", "pkg/io.NewFileStream:reader", u.pos(g.Pos()), "the stream's reader is the opened file (optionally buffered)", "the stream does not read the opened file directly ("+why+"): a wrapper that limits or filters the bytes truncates or alters the program silently")
 	} else {
 		R.lost("C17.api", "pkg/io.NewFileStream")
+	}
+
+	// ---- C17.nul: the lexer marks the end of input with RuneEOF (0); where the token reader meets that value it takes
+	// it for the end of the text only when the cursor really is at the end - a NUL character inside the source is an
+	// error, not a silent end of the program
+	if g := u.ssaFunc("pkg/syntax/zh", "NextToken"); g != nil {
+		eofCalls := u.callsNamed(g, "pkg/syntax/zh.parseEOF")
+		okNul := len(eofCalls) >= 1
+		for _, cs := range eofCalls {
+			guarded := false
+			for _, b := range g.Blocks {
+				ifi, isIf := b.Instrs[len(b.Instrs)-1].(*ssa.If)
+				if !isIf {
+					continue
+				}
+				bo, isB := ifi.Cond.(*ssa.BinOp)
+				if !isB {
+					continue
+				}
+				isLenSrc := func(v ssa.Value) bool {
+					call, ok := v.(*ssa.Call)
+					if !ok {
+						return false
+					}
+					bi, ok := call.Call.Value.(*ssa.Builtin)
+					return ok && bi.Name() == "len" && strings.HasSuffix(containerFieldOf(call.Call.Args[0]), ".Source")
+				}
+				isCursor := func(v ssa.Value) bool {
+					call, ok := v.(*ssa.Call)
+					if ok && u.callName(call) == "pkg/syntax.Lexer.GetCursor" {
+						return true
+					}
+					_, isF := fieldLoad(v, "cursor")
+					return isF
+				}
+				var atEnd *ssa.BasicBlock
+				switch {
+				case bo.Op == token.LSS && isCursor(bo.X) && isLenSrc(bo.Y):
+					atEnd = b.Succs[1]
+				case bo.Op == token.GEQ && isCursor(bo.X) && isLenSrc(bo.Y):
+					atEnd = b.Succs[0]
+				case bo.Op == token.GTR && isLenSrc(bo.X) && isCursor(bo.Y):
+					atEnd = b.Succs[1]
+				case bo.Op == token.LEQ && isLenSrc(bo.X) && isCursor(bo.Y):
+					atEnd = b.Succs[0]
+				}
+				if atEnd != nil && edgeDominates(b, atEnd, cs.Block()) {
+					guarded = true
+				}
+			}
+			if !guarded {
+				okNul = false
+			}
+		}
+		R.check(okNul, "C17.nul", "pkg/syntax/zh.NextToken:end-of-input", u.pos(g.Pos()), "the end-of-input token is produced only when the cursor has reached the end of the source", "the token reader takes the character NUL for the end of input wherever it stands: everything after a NUL in a source file is silently ignored and the truncated program is executed")
+	} else {
+		R.lost("C17.nul", "pkg/syntax/zh.NextToken")
 	}
 
 	// ---- C17.reject at end of input + C17.carry + C17.bom + C17.loop
